@@ -8,7 +8,7 @@
     For transactions that do read their own writes the code — and therefore the
     faithful model — violates the property: [C13_F21_refuted] is the witness of
     known finding F21 (known_findings.json). *)
-From Verif Require Import Bytes BytesFacts Codec Dec DecFacts ListDS SetDS ZSetDS Index Engine Spec TxFacts ReplayFacts ApplyFacts KVRefine DSHistory.
+From Verif Require Import Bytes BytesFacts Codec Dec DecFacts ListDS SetDS ZSetDS Index Engine Spec TxFacts ReplayFacts ApplyFacts KVRefine KVHistory DSHistory HistoryRefine.
 Open Scope N_scope.
 
 (** the records of a transaction are applied in the order of its calls, and the
@@ -89,6 +89,44 @@ Theorem C13_guarded_transaction_is_serial : forall now w s id os,
       forall e, In e (tx_pend t2) -> entry_size e <= o_seg (w_opts w))).
 Proof. exact guarded_tx_is_serial. Qed.
 Print Assumptions C13_guarded_transaction_is_serial.
+
+(** THE WHOLE API, WHOLE HISTORIES.  Engine and specification run side by side
+    on ANY list of calls (Open with any options, Begin, every key/value, list,
+    set and sorted-set call, Commit, Rollback, Close; a clock reading per call).
+    For every history that satisfies the executable guard [hist_guard_corrected]
+    — inside a write transaction no call reads, pops or validates a structure,
+    and no key/value read touches a bucket, that an earlier call of the same
+    transaction (still open, also after a failed Commit) modified; an SPop
+    oracle member is supplied only inside write transactions — EVERY call
+    returns exactly the specification's result, and at the end the whole state
+    (key/value buckets, lists, sets, sorted sets) coincides.  Hypotheses:
+    transaction ids unique and Open outside transactions ([tcalls_ok]),
+    timestamp + TTL < 2^64 ([call_kv_ok]).  The guard's negation is known
+    finding F21 ([C13_guard_is_needed], [C13_F21_refuted]).  This theorem
+    contains C01, C05, C06, C07 and C13 for the engine model at once. *)
+Theorem C13_every_guarded_history_refines : forall cs o,
+  tcalls_ok (empty_world o) cs -> Forall call_kv_ok cs ->
+  hist_guard_corrected false [] cs = true ->
+  Forall (fun p => fst p = snd p) (run_both_res (empty_world o) sworld0 cs).
+Proof. exact history_refines. Qed.
+Print Assumptions C13_every_guarded_history_refines.
+
+Theorem C13_every_guarded_history_state : forall cs o,
+  tcalls_ok (empty_world o) cs -> Forall call_kv_ok cs ->
+  hist_guard_corrected false [] cs = true ->
+  let '(w, sw) := run_both (empty_world o) sworld0 cs in
+  kvrel w (sw_state sw) /\ dsrel (w_ix w) (sw_state sw) /\
+  list_keys_ok (w_ix w) /\ set_keys_ok (w_ix w) /\ w_closed w = sw_closed sw.
+Proof. exact history_state_refines. Qed.
+Print Assumptions C13_every_guarded_history_state.
+
+(** a Get after a Put in the same transaction is outside the guard, and differs *)
+Theorem C13_kv_guard_is_needed :
+  hist_guard_corrected false [] cx_get_after_put = false /\
+  run_both_res (empty_world cx_opts) sworld0 cx_get_after_put =
+    [(ROk, ROk); (ROk, ROk); (RErr, REntry [x6b] [x31])].
+Proof. exact cx_get_after_put_spec. Qed.
+Print Assumptions C13_kv_guard_is_needed.
 
 Theorem C13_guard_is_needed :
   dsrel (w_ix ex_w) ex_s /\ list_keys_ok (w_ix ex_w) /\ set_keys_ok (w_ix ex_w) /\
